@@ -14,6 +14,7 @@ namespace Gojq.MiniVM
 variable [IterMsg]
 set_option linter.unusedSectionVars false
 
+
 theorem eval_pipe_nd_left {defs n g ρ a b v} (h : ND (eval defs (n+1) g ρ (.pipe a b) v).stop) :
     ND (eval defs n g ρ a v).stop := by
   simp only [eval] at h
@@ -29,538 +30,308 @@ theorem eval_pipe_of_nd {defs n g ρ a b v} (h : ND (eval defs n g ρ a v).stop)
   rcases ra with ⟨oa, sa⟩
   cases sa <;> simp_all [ND]
 
-theorem compile_yields {code defs entry nf} (hfun : FuncsOK code defs entry nf) :
-    ∀ (n : Nat) (q : Q) (g : Option Name) (e p : Nat), e ≤ p → Seg code p (compile entry g e p q) → q.Closed nf →
+theorem eval_ite_nd_left {defs n g ρ c a b v} (h : ND (eval defs (n+1) g ρ (.ite c a b) v).stop) :
+    ND (eval defs n g ρ c v).stop := by
+  simp only [eval] at h
+  generalize eval defs n g ρ c v = rc at h
+  rcases rc with ⟨oc, sc⟩
+  cases sc <;> simp_all [ND]
+
+theorem eval_ite_of_nd {defs n g ρ c a b v} (h : ND (eval defs n g ρ c v).stop) :
+    eval defs (n+1) g ρ (.ite c a b) v =
+      Res.bindL (fun w => if falsy w then eval defs n g ρ b v else eval defs n g ρ a v)
+        (eval defs n g ρ c v).outs (eval defs n g ρ c v).stop := by
+  simp only [eval]
+  generalize eval defs n g ρ c v = rc at h
+  rcases rc with ⟨oc, sc⟩
+  cases sc <;> simp_all [ND]
+
+/-- the statement of `compile_yields` for one query `q` at fuel `n` -/
+def CYq (code : Code) (defs : Name → Q) (entry : Name → Nat) (nf n : Nat) (q : Q) : Prop :=
+  ∀ (g : Option Name) (e p : Nat), e ≤ p → Seg code p (compile entry g e p q) → q.Closed nf →
     ∀ ρ v S F R fr o cp (P : Nat → Prop), TopIs fr e → scopeOf entry g ≤ e → (q.HasParam → ρ ≠ .none) →
       (∀ a, P a → a < base fr + (p - e)) →
       EnvRel code entry nf P R fr (fr.length - 1) ρ g →
       base fr + (p + (compile entry g e p q).length - e) ≤ o → ND (eval defs n g ρ q v).stop →
       Yields code (Own (base fr) e p (compile entry g e p q).length) P o fr F (p + (compile entry g e p q).length) S
-        (.run p (.v v :: S) F false none R fr o cp) (eval defs n g ρ q v).outs (eval defs n g ρ q v).stop.toErr := by
-  intro n
-  induction n with
-  | zero => intro q g e p _ _ _ ρ v S F R fr o cp P _ _ _ _ _ _ hnd; simp [eval, ND] at hnd
-  | succ n ihn =>
-    intro q
-    cases q with
-    | id =>
-      intro g e p _ _ _ ρ v S F R fr o cp P _ _ _ _ _ _ _
-      simp only [compile, eval, List.length_nil, Nat.add_zero, Stop.toErr]
-      exact .out (F' := []) ForksOK.nil (.refl _) (Nat.le_refl _) EqOff.refl (fun _ => ⟨rfl, rfl⟩)
-        (fun R2 _ => .done (.refl _) EqOff.refl)
-    | const c =>
-      intro g e p _ hseg _ ρ v S F R fr o cp P _ _ _ _ _ _ _
-      simp only [compile, eval, List.length_singleton, Stop.toErr]
-      have h0 := Seg.head hseg
-      exact .out (F' := []) (R1 := R) (o1 := o) (cp := cp) ForksOK.nil (Steps.one (by simp [step, h0]))
-        (Nat.le_refl _) EqOff.refl (fun _ => ⟨rfl, rfl⟩) (fun R2 _ => .done (.refl _) EqOff.refl)
-    | empty =>
-      intro g e p _ hseg _ ρ v S F R fr o cp P _ _ _ _ _ _ _
-      simp only [compile, eval, Stop.toErr]
-      have h0 := Seg.head hseg
-      exact .done (Steps.one (by simp [step, h0])) EqOff.refl
-    | iter =>
-      intro g e p _ hseg _ ρ v S F R fr o cp P _ _ _ _ _ _ _
-      have h0 : code[p]? = some .iter := Seg.head hseg
-      simp only [compile, List.length_singleton]
-      cases hit : iterItems v with
-      | none =>
-        simp only [eval, hit, Stop.toErr]
-        exact .done (Steps.one (by simp [step, h0, hit])) EqOff.refl
-      | some xs =>
-        simp only [eval, hit, Stop.toErr]
-        have key : ∀ (ys : List V) (c : Cfg),
-            (∃ R cp, (∃ x, iterItems x = some ys ∧ c = .run p (.v x :: S) F false none R fr o cp) ∨
-             (ys ≠ [] ∧ c = .run p (.rest ys :: S) F true none R fr o cp)) →
-            Yields code (Own (base fr) e p 1) P o fr F (p+1) S c ys none := by
-          intro ys
-          induction ys with
-          | nil =>
-            intro c hc
-            obtain ⟨R, cp, ⟨x, hx, rfl⟩ | ⟨h, _⟩⟩ := hc
-            · exact .done (Steps.one (by simp [step, h0, hx])) EqOff.refl
-            · exact absurd rfl h
-          | cons y ys ih =>
-            intro c hc
-            obtain ⟨R, cp, hc⟩ := hc
-            cases ys with
-            | nil =>
-              refine .out (F' := []) (R1 := R) (o1 := o) (cp := cp) ForksOK.nil ?_ (Nat.le_refl _) ?_
-                (fun _ => ⟨rfl, rfl⟩) (fun R2 _ => .done (.refl _) EqOff.refl)
-              · rcases hc with ⟨x, hx, rfl⟩ | ⟨_, rfl⟩
-                · exact Steps.one (by simp [step, h0, hx])
-                · exact Steps.one (by simp [step, h0])
-              · rcases hc with ⟨x, hx, rfl⟩ | ⟨_, rfl⟩ <;> exact EqOff.refl
-            | cons z zs =>
-              have hok : ForksOK code [⟨p, .rest (z :: zs) :: S, fr, o⟩] := .plain (Or.inr h0) .nil
-              refine .out (F' := [⟨p, .rest (z :: zs) :: S, fr, o⟩]) (R1 := R) (o1 := o) (cp := cp) hok ?_
-                (Nat.le_refl _) ?_ (fun h => by simp at h) ?_
-              · rcases hc with ⟨x, hx, rfl⟩ | ⟨_, rfl⟩
-                · exact Steps.one (by simp [step, h0, hx])
-                · exact Steps.one (by simp [step, h0])
-              · rcases hc with ⟨x, hx, rfl⟩ | ⟨_, rfl⟩ <;> exact EqOff.refl
-              · intro R2 _
-                refine Yields.steps_left
-                  (Steps.one (b := .run p (.rest (z :: zs) :: S) F true none R2 fr o 0) (by simp [step])) EqOff.refl ?_
-                exact ih _ ⟨R2, 0, Or.inr ⟨by simp, rfl⟩⟩
-        exact key xs _ ⟨R, cp, Or.inl ⟨v, hit, rfl⟩⟩
-    | pipe a b =>
-      intro g e p hep hseg hcl ρ v S F R fr o cp P htop hge hpar hP henv hoff hnd
-      simp only [compile] at hseg hoff ⊢
-      simp only [Q.Closed] at hcl
-      simp only [Q.HasParam] at hpar
-      have hsa := Seg.append_left hseg
-      have hsb := Seg.append_right hseg
-      have hnda : ND (eval defs n g ρ a v).stop := eval_pipe_nd_left hnd
-      rw [eval_pipe_of_nd hnda] at hnd ⊢
-      simp only [List.length_append] at hoff ⊢
-      have ya := ihn a g e p hep hsa hcl.1 ρ v S F R fr o cp P htop hge (fun h => hpar (Or.inl h)) hP henv (by omega) hnda
-      have := Yields.bind (f := eval defs n g ρ b) (R0 := R)
-        (O := Own (base fr) e p ((compile entry g e p a).length + (compile entry g e (p + (compile entry g e p a).length) b).length))
-        (p' := p + (compile entry g e p a).length + (compile entry g e (p + (compile entry g e p a).length) b).length)
-        (by intro i h; obtain ⟨j, h1, h2, h3⟩ := h; exact ⟨j, by omega, by omega, h3⟩)
-        (by intro i h; obtain ⟨j, h1, h2, h3⟩ := h; exact ⟨j, by omega, by omega, h3⟩)
-        (by intro i h h'; obtain ⟨j, h1, h2, h3⟩ := h; obtain ⟨k, k1, k2, k3⟩ := h'; omega)
-        (by intro i h; obtain ⟨j, h1, h2, h3⟩ := h; omega)
-        (by intro i h; have := hP i h; refine ⟨by omega, ?_⟩; intro h'; obtain ⟨j, h1, h2, h3⟩ := h'; omega)
-        ya
-        (fun x G R' o1 cp ho1 hR' hx => ihn b g e _ (by omega) hsb hcl.2 ρ x S G R' fr o1 cp P htop hge
-          (fun h => hpar (Or.inr h)) (fun a h => by have := hP a h; omega) (henv.congr hR') (by omega) hx)
-        (eval defs n g ρ a v).stop rfl EqOn.refl hnd
-      simpa [Nat.add_assoc] using this
-    | comma a b =>
-      intro g e p hep hseg hcl ρ v S F R fr o cp P htop hge hpar hP henv hoff hnd
-      simp only [compile] at hseg hoff ⊢
-      simp only [Q.Closed] at hcl
-      simp only [Q.HasParam] at hpar
-      generalize hca : compile entry g e (p+1) a = ca at hseg hoff ⊢
-      generalize hpb : p + 1 + ca.length + 1 = pb at hseg hoff ⊢
-      generalize hcb : compile entry g e pb b = cb at hseg hoff ⊢
-      have hfork : code[p]? = some (.fork pb) := by
-        have := hseg 0 (by simp); simpa using this
-      have hsa : Seg code (p+1) ca := by
-        have h1 := Seg.append_left (Seg.append_left hseg)
-        have := Seg.append_right (a := [Instr.fork pb]) (b := ca) h1
-        simpa using this
-      have hjump : code[p + 1 + ca.length]? = some (.jump (pb + cb.length)) := by
-        have h1 := Seg.append_left hseg
-        have := Seg.append_right (a := [Instr.fork pb] ++ ca) (b := [Instr.jump (pb + cb.length)]) h1
-        have := Seg.head this
-        have e : p + 1 + ca.length = p + ([Instr.fork pb] ++ ca).length := by simp; omega
-        rw [e]; exact this
-      have hsb : Seg code pb cb := by
-        have := Seg.append_right (a := [Instr.fork pb] ++ ca ++ [Instr.jump (pb + cb.length)]) (b := cb) hseg
-        simpa [← hpb, Nat.add_assoc, Nat.add_comm, Nat.add_left_comm] using this
-      have hlen : ([Instr.fork pb] ++ ca ++ [Instr.jump (pb + cb.length)] ++ cb).length = 1 + ca.length + 1 + cb.length := by
-        simp; omega
-      rw [hlen] at hoff ⊢
-      have hexit : p + (1 + ca.length + 1 + cb.length) = pb + cb.length := by omega
-      rw [hexit]
-      let fk : Fork := ⟨p, .v v :: S, fr, o⟩
-      have hfk : ForksOK code [fk] := .plain (Or.inl ⟨pb, hfork⟩) .nil
-      simp only [eval] at hnd ⊢
-      have hnda : ND (eval defs n g ρ a v).stop := by
-        generalize eval defs n g ρ a v = ra at hnd
-        rcases ra with ⟨oa, sa⟩
-        cases sa <;> simp_all [ND]
-      have ya := ihn a g e (p+1) (by omega) (hca ▸ hsa) hcl.1 ρ v S (fk :: F) R fr o cp P htop hge
-        (fun h => hpar (Or.inl h)) (fun a h => by have := hP a h; omega) henv (by rw [hca]; omega) hnda
-      rw [hca] at ya
-      have ya' : Yields code (Own (base fr) e (p+1) ca.length) P o fr ([fk] ++ F) (pb + cb.length) S
-          (.run (p+1) (.v v :: S) (fk :: F) false none R fr o cp) (eval defs n g ρ a v).outs (eval defs n g ρ a v).stop.toErr :=
-        Yields.exit_steps (fun w G R o1 cp => ⟨cp, Steps.one (by simp [step, hjump])⟩) ya
-      have start : Steps code (.run p (.v v :: S) F false none R fr o cp) (.run (p+1) (.v v :: S) (fk :: F) false none R fr o cp) :=
-        Steps.one (by simp [step, hfork, fk])
-      refine Yields.steps_left start EqOff.refl ?_
-      have hOa : ∀ i, Own (base fr) e (p+1) ca.length i → Own (base fr) e p (1 + ca.length + 1 + cb.length) i ∨ (o ≤ i ∧ i < o) := by
-        intro i h; obtain ⟨j, h1, h2, h3⟩ := h; exact Or.inl ⟨j, by omega, by omega, h3⟩
-      have hOb : ∀ i, Own (base fr) e pb cb.length i → Own (base fr) e p (1 + ca.length + 1 + cb.length) i ∨ (o ≤ i ∧ i < o) := by
-        intro i h; obtain ⟨j, h1, h2, h3⟩ := h; exact Or.inl ⟨j, by omega, by omega, h3⟩
-      have hPP : ∀ a, P a → Own (base fr) e p (1 + ca.length + 1 + cb.length) a ∨ P a ∨ (o ≤ a ∧ a < o) :=
-        fun a h => Or.inr (Or.inl h)
-      generalize hra : eval defs n g ρ a v = ra at hnd ya' ⊢
-      rcases ra with ⟨oa, sa⟩
-      cases sa with
-      | diverge => simp [ND] at hnd
-      | err ee =>
-        simp only [Stop.toErr] at ya' ⊢
-        exact Yields.rebase_err ya' hfk hOa hPP (Nat.le_refl _)
-      | done =>
-        simp only [Stop.toErr] at ya' hnd ⊢
-        have yb := fun R' (hR' : EqOn P R R') => ihn b g e pb (by omega) (hcb ▸ hsb) hcl.2 ρ v S F R' fr o 0 P htop hge
-          (fun h => hpar (Or.inr h)) (fun a h => by have := hP a h; omega) (henv.congr hR') (by rw [hcb]; omega) hnd
-        rw [hcb] at yb
-        refine Yields.rebase (K := P) ya' hfk hOa hPP (Nat.le_refl _) hPP ?_ (fun h => by simp at h) ?_
-        · intro a h hw
-          have := hP a h
-          rcases hw with hw | hw
-          · obtain ⟨j, j1, j2, j3⟩ := hw; omega
-          · omega
-        intro R' hR'
-        refine Yields.steps_left (c' := .run pb (.v v :: S) F false none R' fr o 0) ?_ EqOff.refl
-          ((yb R' (by simpa using hR')).mono hOb hPP (Nat.le_refl _))
-        refine .head (c' := .run p (.v v :: S) F true none R' fr o 0) (by simp [step, fk]) ?_
-        exact Steps.one (by simp [step, hfork])
-    | arr q =>
-      intro g e p hep hseg hcl ρ v S F R fr o cp P htop hge hpar hP henv hoff hnd
-      simp only [compile] at hseg hoff ⊢
-      simp only [Q.Closed] at hcl
-      simp only [Q.HasParam] at hpar
-      obtain ⟨ft, hres, hbase, _, _⟩ := htop.resolve
-      generalize hcq : compile entry g e (p+3) q = cq at hseg hoff ⊢
-      have h0 : code[p]? = some (.push (.arr [])) := by have := hseg 0 (by simp); simpa using this
-      have h1 : code[p+1]? = some (.store e (p - e)) := by have := hseg 1 (by simp); simpa using this
-      have h2 : code[p+2]? = some (.fork (p + 3 + cq.length + 2)) := by have := hseg 2 (by simp); simpa using this
-      have hsq : Seg code (p+3) cq := by
-        have := Seg.append_right (a := [Instr.push (.arr []), .store e (p - e), .fork (p + 3 + cq.length + 2)]) (b := cq) (Seg.append_left hseg)
-        simpa using this
-      have htail := Seg.append_right (a := [Instr.push (.arr []), .store e (p - e), .fork (p + 3 + cq.length + 2)] ++ cq) hseg
-      have hpe : p + ([Instr.push (.arr []), .store e (p - e), .fork (p + 3 + cq.length + 2)] ++ cq).length = p + 3 + cq.length := by
-        simp; omega
-      rw [hpe] at htail
-      have t0 : code[p + 3 + cq.length]? = some (.append e (p - e)) := by have := htail 0 (by simp); simpa using this
-      have t1 : code[p + 3 + cq.length + 1]? = some .backtrack := by have := htail 1 (by simp); simpa using this
-      have t2 : code[p + 3 + cq.length + 2]? = some .pop := by have := htail 2 (by simp); simpa using this
-      have t3 : code[p + 3 + cq.length + 3]? = some (.load e (p - e)) := by have := htail 3 (by simp); simpa using this
-      have hlen : ([Instr.push (.arr []), .store e (p - e), .fork (p + 3 + cq.length + 2)] ++ cq ++ [Instr.append e (p - e), .backtrack, .pop, .load e (p - e)]).length = 3 + cq.length + 4 := by
-        simp; omega
-      rw [hlen] at hoff ⊢
-      let fk : Fork := ⟨p+2, .v v :: S, fr, o⟩
-      let r := ft.base + (p - e)
-      let R0 := R.set r (.v (.arr []))
-      have hrP : ¬ P r := by intro h; have := hP _ h; simp only [r] at this; omega
-      have hRR0 : EqOn P R R0 := by
-        intro a ha; simp only [R0, Regs.set]; split
-        · rename_i h; subst h; exact absurd ha hrP
-        · rfl
-      have start : Steps code (.run p (.v v :: S) F false none R fr o cp) (.run (p+3) (.v v :: S) (fk :: F) false none R0 fr o cp) := by
-        refine .head (c' := .run (p+1) (.v (.arr []) :: .v v :: S) F false none R fr o cp) (by simp [step, h0]) ?_
-        refine .head (c' := .run (p+2) (.v v :: S) F false none R0 fr o cp) (by simp [step, h1, hres, R0, r]) ?_
-        exact Steps.one (by simp [step, h2, fk])
-      simp only [eval] at hnd ⊢
-      have hndq : ND (eval defs n g ρ q v).stop := by
-        generalize eval defs n g ρ q v = rq at hnd
-        rcases rq with ⟨oq, sq⟩
-        cases sq <;> simp_all [ND]
-      have yq := ihn q g e (p+3) (by omega) (hcq ▸ hsq) hcl ρ v S (fk :: F) R0 fr o cp P htop hge hpar
-        (fun a h => by have := hP a h; omega) (henv.congr hRR0) (by rw [hcq]; omega) hndq
-      rw [hcq] at yq
-      have hnot : ¬ Own (base fr) e (p+3) cq.length r := by
-        intro h; obtain ⟨j, j1, j2, j3⟩ := h; simp only [r] at j3; omega
-      have hrlt : r < o := by simp only [r]; omega
-      obtain ⟨R', hs, hacc, hfr⟩ := collect hres hnot hrP hrlt t0 t1 yq [] (by simp [R0, Regs.set, r])
-      have hfr' : EqOff (Wr (Own (base fr) e p (3 + cq.length + 4)) o) R R' := by
-        intro i hi
-        have hne : i ≠ r := by
-          intro h; apply hi; left; exact ⟨p, by omega, by omega, by simp [h, r, hbase]⟩
-        have a : ¬ (Wr (Own (base fr) e (p+3) cq.length) o i ∨ i = r) := by
-          intro h; rcases h with (h | h) | h
-          · apply hi; left; obtain ⟨j, j1, j2, j3⟩ := h; exact ⟨j, by omega, by omega, j3⟩
-          · exact hi (Or.inr h)
-          · exact hne h
-        rw [← hfr i a]
-        simp [R0, Regs.set, hne]
-      generalize hrq : eval defs n g ρ q v = rq at hnd hs hacc ⊢
-      rcases rq with ⟨oq, sq⟩
-      cases sq with
-      | diverge => simp [ND] at hnd
-      | err ee =>
-        simp only [Stop.toErr] at hs ⊢
-        refine .done (start.trans (hs.trans ?_)) hfr'
-        refine .head (c' := .run (p+2) (.v v :: S) F true (some (.plain ee)) R' fr o 0) (by simp [step, fk]) ?_
-        exact Steps.one (by simp [step, h2])
-      | done =>
-        simp only [Stop.toErr] at hs hacc ⊢
-        refine .out (F' := []) (R1 := R') (o1 := o) (cp := 0) ForksOK.nil ?_ (Nat.le_refl _) hfr' (fun _ => ⟨rfl, rfl⟩)
-          (fun R2 _ => .done (.refl _) EqOff.refl)
-        refine start.trans (hs.trans ?_)
-        refine .head (c' := .run (p+2) (.v v :: S) F true none R' fr o 0) (by simp [step, fk]) ?_
-        refine .head (c' := .run (p + 3 + cq.length + 2) (.v v :: S) F false none R' fr o 0) (by simp [step, h2]) ?_
-        refine .head (c' := .run (p + 3 + cq.length + 3) S F false none R' fr o 0) (by simp [step, t2]) ?_
-        have : p + (3 + cq.length + 4) = p + 3 + cq.length + 3 + 1 := by omega
-        rw [this]
-        refine Steps.one ?_
-        have hacc' : R' (ft.base + (p - e)) = .v (.arr oq) := by simpa using hacc
-        simp [step, t3, hres, hacc']
-    | param =>
-      intro g e p hep hseg _ ρ v S F R fr o cp P htop hge hpar hP henv hoff hnd
-      simp only [compile] at hseg hoff ⊢
-      have h0 : code[p]? = some (.load (scopeOf entry g) 1) := by have := hseg 0 (by simp); simpa using this
-      have h1 : code[p+1]? = some .callpc := by have := hseg 1 (by simp); simpa using this
-      simp only [List.length_cons, List.length_nil]
-      cases ρ with
-      | none => exact absurd rfl (hpar (by simp [Q.HasParam]))
-      | mk h q' ρ' =>
-        obtain ⟨f, dg, pcL, d', fd, hr, hp, _, hdd, hfd, hfid, hl, hcl', hpar', hrec⟩ := EnvRel.inv_mk henv
-        simp only [eval] at hnd ⊢
-        obtain ⟨l0, l1, l2, l3⟩ := hl
-        let lq := (compile entry h pcL (pcL+1) q').length
-        let lam : Frame := ⟨pcL, p+1, o, F.length, some d'⟩
-        have hdg := resolve_lt _ _ _ _ _ hr
-        have hfne : fd.id ≠ pcL := by omega
-        have start : Steps code (.run p (.v v :: S) F false none R fr o cp)
-            (.run (pcL + 1) (.v v :: S) F false none R (lam :: fr) (o + (lq + 1)) (p+1, some d')) := by
-          refine .head (c' := .run (p+1) (.clo pcL d' :: .v v :: S) F false none R fr o cp)
-            (by simp [step, h0, hr, hp]) ?_
-          refine .head (c' := .run pcL (.v v :: S) F false none R fr o (p+1, some d')) (by simp [step, h1]) ?_
-          refine Steps.one ?_
-          rw [step_scope l0 rfl hfd, if_neg hfne]
-        have henv' : EnvRel code entry nf P R (lam :: fr) ((lam :: fr).length - 1) ρ' h := by
-          have := hrec.lam lam (by omega) (by simp only [lam]; omega) rfl
-          simpa using this
-        have yb := ihn q' h pcL (pcL+1) (by omega) l1 hcl' ρ' v S F R (lam :: fr) (o + (lq + 1)) (p+1, some d') P
-          ⟨lam, fr, rfl, rfl⟩ (by omega) hpar' (fun a ha => by have := hP a ha; simp only [lam, base]; omega) henv'
-          (by simp only [lam, base, lq]; omega) hnd
-        have yb' : Yields code (Own o pcL (pcL + 1) lq) P (o + (lq + 1)) (lam :: fr) F (pcL + 1 + lq) S
-            (.run (pcL + 1) (.v v :: S) F false none R (lam :: fr) (o + (lq + 1)) (p+1, some d'))
-            (eval defs n h ρ' q' v).outs (eval defs n h ρ' q' v).stop.toErr := yb
-        have yc := call_of_body (o := o) (fm := lam) (n := lq + 1) (Ob := Own o pcL (pcL + 1) lq) (P := P) (P' := P) htop.ne_nil rfl rfl
-          (by intro a h; obtain ⟨j, j1, j2, j3⟩ := h; omega) (fun a h => Or.inl h) l2 yb'
-        exact Yields.steps_left start EqOff.refl (yc.mono (fun _ h => h.elim) (fun a h => Or.inr (Or.inl h)) (Nat.le_refl _))
-    | call1 f a =>
-      intro g e p hep hseg hcl ρ v S F R fr o cp P htop hge hpar hP henv hoff hnd
-      simp only [compile] at hseg hoff ⊢
-      simp only [Q.Closed] at hcl
-      simp only [Q.HasParam] at hpar
-      obtain ⟨hf, hcla⟩ := hcl
-      obtain ⟨ft, hres, hbase, hftop, hftid⟩ := htop.resolve
-      have hne := htop.ne_nil
-      have htd := topDepth_of_ne_nil hne
-      generalize hca : compile entry g (p+2) (p+3) a = ca at hseg hoff ⊢
-      have c0 : code[p]? = some (.store e (p - e)) := by have := hseg 0 (by simp); simpa using this
-      have c1 : code[p+1]? = some (.jump (p + 4 + ca.length)) := by have := hseg 1 (by simp); simpa using this
-      have c2 : code[p+2]? = some (.scope (p+2) (ca.length + 1) 0) := by have := hseg 2 (by simp); simpa using this
-      have hsa : Seg code (p+3) ca := by
-        have := Seg.append_right (a := [Instr.store e (p - e), .jump (p + 4 + ca.length), .scope (p+2) (ca.length + 1) 0]) (b := ca) (Seg.append_left hseg)
-        simpa using this
-      have htail := Seg.append_right (a := [Instr.store e (p - e), .jump (p + 4 + ca.length), .scope (p+2) (ca.length + 1) 0] ++ ca) hseg
-      have hpe : p + ([Instr.store e (p - e), .jump (p + 4 + ca.length), .scope (p+2) (ca.length + 1) 0] ++ ca).length = p + 3 + ca.length := by
-        simp; omega
-      rw [hpe] at htail
-      have t0 : code[p + 3 + ca.length]? = some .ret := by have := htail 0 (by simp); simpa using this
-      have t1 : code[p + 3 + ca.length + 1]? = some (.pushpc (p+2)) := by have := htail 1 (by simp); simpa using this
-      have t2 : code[p + 3 + ca.length + 2]? = some (.load e (p - e)) := by have := htail 2 (by simp); simpa using this
-      have t3 : code[p + 3 + ca.length + 3]? = some (.call (entry f)) := by have := htail 3 (by simp); simpa using this
-      have hlen : ([Instr.store e (p - e), .jump (p + 4 + ca.length), .scope (p+2) (ca.length + 1) 0] ++ ca ++
-          [Instr.ret, .pushpc (p+2), .load e (p - e), .call (entry f)]).length = 3 + ca.length + 4 := by
-        simp; omega
-      rw [hlen] at hoff ⊢
-      have hlam : LamAt code entry (p+2) g a := by
-        refine ⟨?_, ?_, ?_, by omega⟩
-        · rw [hca]; exact c2
-        · rw [hca]; exact hsa
-        · rw [hca]; have : p + 2 + 1 + ca.length = p + 3 + ca.length := by omega
-          rw [this]; exact t0
-      simp only [eval] at hnd ⊢
-      let lb := (compile entry (some f) (entry f) (entry f + 4) (defs f)).length
-      let r := ft.base + (p - e)
-      let R0 := R.set r (.v v)
-      let R1 := R0.set o (.v v)
-      let R2 := R1.set (o + 1) (.clo (p+2) (fr.length - 1))
-      -- the `outerindex` the real VM computes for the callee's frame (never consulted in this fragment)
-      let oo : Option Nat := if ft.id = entry f then ft.outer else some (fr.length - 1)
-      let cal : Frame := ⟨entry f, p + 3 + ca.length + 3, o, F.length, oo⟩
-      have hlenpos : 0 < fr.length := by cases fr <;> simp_all
-      have hrc : resolve (entry f) (cal :: fr) ((cal :: fr).length - 1) = some (cal, fr.length) := by simp [resolve, cal]
-      have start : Steps code (.run p (.v v :: S) F false none R fr o cp)
-          (.run (entry f + 4) (.v v :: S) F false none R2 (cal :: fr) (o + (lb + 4)) (p + 3 + ca.length + 3, some (fr.length - 1))) := by
-        refine .head (c' := .run (p+1) S F false none R0 fr o cp) (by simp [step, c0, hres, R0, r]) ?_
-        refine .head (c' := .run (p + 4 + ca.length) S F false none R0 fr o cp) (by simp [step, c1]) ?_
-        have e4 : p + 4 + ca.length = p + 3 + ca.length + 1 := by omega
-        rw [e4]
-        refine .head (c' := .run (p + 3 + ca.length + 2) (.clo (p+2) (fr.length - 1) :: S) F false none R0 fr o cp)
-          (by simp [step, t1, htd]) ?_
-        refine .head (c' := .run (p + 3 + ca.length + 3) (.v v :: .clo (p+2) (fr.length - 1) :: S) F false none R0 fr o cp)
-          (by simp [step, t2, hres, R0, r, Regs.set]) ?_
-        refine .head (c' := .run (entry f) (.v v :: .clo (p+2) (fr.length - 1) :: S) F false none R0 fr o
-          (p + 3 + ca.length + 3, some (fr.length - 1))) (by simp [step, t3, htd]) ?_
-        refine .head (c' := .run (entry f + 1) (.v v :: .clo (p+2) (fr.length - 1) :: S) F false none R0 (cal :: fr) (o + (lb + 4))
-          (p + 3 + ca.length + 3, some (fr.length - 1))) (by rw [step_scope (hfun.scope f hf) rfl hftop]) ?_
-        refine .head (c' := .run (entry f + 2) (.clo (p+2) (fr.length - 1) :: S) F false none R1 (cal :: fr) (o + (lb + 4))
-          (p + 3 + ca.length + 3, some (fr.length - 1))) (by rw [step_store (hfun.st0 f hf) hrc]; rfl) ?_
-        refine .head (c' := .run (entry f + 3) S F false none R2 (cal :: fr) (o + (lb + 4))
-          (p + 3 + ca.length + 3, some (fr.length - 1))) (by rw [step_store (hfun.st1 f hf) hrc]) ?_
-        refine Steps.one ?_
-        rw [step_load (hfun.ld0 f hf) hrc]
-        simp [cal, R2, R1, Regs.set]
-      let P' : Nat → Prop := fun x => P x ∨ x = o + 1
-      have hRR2 : EqOn P R R2 := by
-        intro x hx
-        have := hP x hx
-        have h1 : x ≠ r := by simp only [r]; omega
-        have h2 : x ≠ o := by omega
-        have h3 : x ≠ o + 1 := by omega
-        simp [R2, R1, R0, Regs.set, h1, h2, h3]
-      have henv' : EnvRel code entry nf P' R2 (cal :: fr) ((cal :: fr).length - 1) (.mk g a ρ) (some f) := by
-        have hres' : resolve (scopeOf entry (some f)) (cal :: fr) fr.length = some (cal, fr.length) := by
-          simp [resolve, cal, scopeOf]
-        have hfa : frameAt (cal :: fr) (fr.length - 1) = some ft := by
-          rw [frameAt_push _ _ _ (by omega)]; exact hftop
-        have := EnvRel.mk (code := code) (entry := entry) (nf := nf) (P := P') (R := R2) hres'
-          (by simp [cal, R2, Regs.set]) (Or.inr (by simp [cal])) (by omega)
-          hfa (by omega) hlam hcla hpar (((henv.congr hRR2).monoP (fun x hx => Or.inl hx)).push cal (by omega))
-        simpa using this
-      have yb := ihn (defs f) (some f) (entry f) (entry f + 4) (by omega) (hfun.body f hf) (hfun.closed f hf) (.mk g a ρ) v S F R2
-        (cal :: fr) (o + (lb + 4)) (p + 3 + ca.length + 3, some (fr.length - 1)) P'
-        ⟨cal, fr, rfl, rfl⟩ (Nat.le_refl _) (fun _ => by simp)
-        (fun x hx => by
-          simp only [cal, base]
-          rcases hx with hx | hx
-          · have := hP x hx; omega
-          · omega)
-        henv' (by simp only [cal, base, lb]; omega) hnd
-      have yb' : Yields code (Own o (entry f) (entry f + 4) lb) P' (o + (lb + 4)) (cal :: fr) F (entry f + 4 + lb) S
-          (.run (entry f + 4) (.v v :: S) F false none R2 (cal :: fr) (o + (lb + 4)) (p + 3 + ca.length + 3, some (fr.length - 1)))
-          (eval defs n (some f) (.mk g a ρ) (defs f) v).outs (eval defs n (some f) (.mk g a ρ) (defs f) v).stop.toErr := yb
-      have yc := call_of_body (o := o) (fm := cal) (n := lb + 4) (Ob := Own o (entry f) (entry f + 4) lb) (P := P) (P' := P') hne rfl rfl
-        (by intro a h; obtain ⟨j, j1, j2, j3⟩ := h; omega)
-        (by intro x hx; rcases hx with hx | hx
-            · exact Or.inl hx
-            · exact Or.inr (by omega))
-        (hfun.ret f hf) yb'
-      have hexit : cal.ret + 1 = p + (3 + ca.length + 4) := by simp only [cal]; omega
-      rw [hexit] at yc
-      refine Yields.steps_left start ?_ (yc.mono (fun _ h => h.elim) (fun a h => Or.inr (Or.inl h)) (Nat.le_refl _))
-      intro i hi
-      have hne1 : i ≠ r := by
-        intro h; apply hi; left; exact ⟨p, by omega, by omega, by simp [h, r, hbase]⟩
-      have hne2 : i ≠ o := by
-        intro h; apply hi; right; omega
-      have hne3 : i ≠ o + 1 := by
-        intro h; apply hi; right; omega
-      simp [R2, R1, R0, Regs.set, hne1, hne2, hne3]
-    | error =>
-      intro g e p _ hseg _ ρ v S F R fr o cp P _ _ _ _ _ _ _
-      simp only [compile, eval, Stop.toErr]
-      have h0 := Seg.head hseg
-      exact .done (e := some (.user v)) (Steps.one (by simp [step, h0])) EqOff.refl
-    | try_ b =>
-      intro g e p hep hseg hcl ρ v S F R fr o cp P htop hge hpar hP henv hoff hnd
-      simp only [compile] at hseg hoff ⊢
-      simp only [Q.Closed] at hcl
-      simp only [Q.HasParam] at hpar
-      generalize hcb : compile entry g e (p+1) b = cb at hseg hoff ⊢
-      have h0 : code[p]? = some (.forktrybegin (p + 1 + cb.length + 2)) := by have := hseg 0 (by simp); simpa using this
-      have hsb : Seg code (p+1) cb := by
-        have := Seg.append_right (a := [Instr.forktrybegin (p + 1 + cb.length + 2)]) (b := cb) (Seg.append_left hseg)
-        simpa using this
-      have htail := Seg.append_right (a := [Instr.forktrybegin (p + 1 + cb.length + 2)] ++ cb) hseg
-      have hpe : p + ([Instr.forktrybegin (p + 1 + cb.length + 2)] ++ cb).length = p + 1 + cb.length := by simp; omega
-      rw [hpe] at htail
-      have t0 : code[p + 1 + cb.length]? = some .forktryend := by have := htail 0 (by simp); simpa using this
-      have t1 : code[p + 1 + cb.length + 1]? = some (.jump (p + 1 + cb.length + 3)) := by have := htail 1 (by simp); simpa using this
-      have t2 : code[p + 1 + cb.length + 2]? = some .backtrack := by have := htail 2 (by simp); simpa using this
-      have hlen : ([Instr.forktrybegin (p + 1 + cb.length + 2)] ++ cb ++ [Instr.forktryend, .jump (p + 1 + cb.length + 3), .backtrack]).length = 1 + cb.length + 3 := by
-        simp; omega
-      rw [hlen] at hoff ⊢
-      have hexit : p + (1 + cb.length + 3) = p + 1 + cb.length + 3 := by omega
-      rw [hexit]
-      simp only [eval] at hnd ⊢
-      have hndb : ND (eval defs n g ρ b v).stop := by
-        generalize eval defs n g ρ b v = rb at hnd
-        rcases rb with ⟨ob, sb⟩
-        cases sb <;> simp_all [ND]
-      have yb := ihn b g e (p+1) (by omega) (hcb ▸ hsb) hcl ρ v S (⟨p, .v v :: S, fr, o⟩ :: F) R fr o cp P htop hge hpar
-        (fun a h => by have := hP a h; omega) henv (by rw [hcb]; omega) hndb
-      rw [hcb] at yb
-      have start : Steps code (.run p (.v v :: S) F false none R fr o cp)
-          (.run (p+1) (.v v :: S) (⟨p, .v v :: S, fr, o⟩ :: F) false none R fr o cp) := Steps.one (by simp [step, h0])
-      refine Yields.steps_left start EqOff.refl ?_
-      have hOb : ∀ a, Own (base fr) e (p+1) cb.length a → Own (base fr) e p (1 + cb.length + 3) a := by
-        intro a h; obtain ⟨j, h1, h2, h3⟩ := h; exact ⟨j, by omega, by omega, h3⟩
-      generalize hrb : eval defs n g ρ b v = rb at hnd yb ⊢
-      rcases rb with ⟨ob, sb⟩
-      cases sb with
-      | diverge => simp [ND] at hnd
-      | done =>
-        simp only [Stop.toErr] at yb ⊢
-        have := try_body_aux yb (O := Own (base fr) e p (1 + cb.length + 3)) (K := fun _ => False) (out2 := []) (e := none)
-          (Rref := R) rfl h0 t0 t1 hOb (fun _ h => h.elim) (fun _ h => h.elim) (fun _ h => h.elim)
-          (fun R' _ => .done (e := none)
-            (.head (c' := .run p (.v v :: S) F true none R' fr o 0) (by simp [step]) (Steps.one (by simp [step, h0])))
-            EqOff.refl)
-        simpa using this
-      | err ee =>
-        simp only [Stop.toErr] at yb ⊢
-        have := try_body_aux yb (O := Own (base fr) e p (1 + cb.length + 3)) (K := fun _ => False) (out2 := []) (e := none)
-          (Rref := R) rfl h0 t0 t1 hOb (fun _ h => h.elim) (fun _ h => h.elim) (fun _ h => h.elim)
-          (fun R' _ => .done (e := none)
-            (.head (c' := .run p (.v v :: S) F true (some (.plain ee)) R' fr o 0) (by simp [step])
-              (.head (c' := .run (p + 1 + cb.length + 2) (.v ee.toV :: S) F false none R' fr o 0) (by simp [step, h0])
-                (Steps.one (by simp [step, t2]))))
-            EqOff.refl)
-        simpa using this
-    | tryCatch b h =>
-      intro g e p hep hseg hcl ρ v S F R fr o cp P htop hge hpar hP henv hoff hnd
-      simp only [compile] at hseg hoff ⊢
-      simp only [Q.Closed] at hcl
-      simp only [Q.HasParam] at hpar
-      generalize hcb : compile entry g e (p+1) b = cb at hseg hoff ⊢
-      generalize hch : compile entry g e (p + 1 + cb.length + 2) h = ch at hseg hoff ⊢
-      have h0 : code[p]? = some (.forktrybegin (p + 1 + cb.length + 2)) := by have := hseg 0 (by simp); simpa using this
-      have hsb : Seg code (p+1) cb := by
-        have := Seg.append_right (a := [Instr.forktrybegin (p + 1 + cb.length + 2)]) (b := cb) (Seg.append_left (Seg.append_left hseg))
-        simpa using this
-      have hmid := Seg.append_right (a := [Instr.forktrybegin (p + 1 + cb.length + 2)] ++ cb) (Seg.append_left hseg)
-      have hpe : p + ([Instr.forktrybegin (p + 1 + cb.length + 2)] ++ cb).length = p + 1 + cb.length := by simp; omega
-      rw [hpe] at hmid
-      have t0 : code[p + 1 + cb.length]? = some .forktryend := by have := hmid 0 (by simp); simpa using this
-      have t1 : code[p + 1 + cb.length + 1]? = some (.jump (p + 1 + cb.length + 2 + ch.length)) := by have := hmid 1 (by simp); simpa using this
-      have hsh : Seg code (p + 1 + cb.length + 2) ch := by
-        have := Seg.append_right (a := [Instr.forktrybegin (p + 1 + cb.length + 2)] ++ cb ++ [Instr.forktryend, .jump (p + 1 + cb.length + 2 + ch.length)]) (b := ch) hseg
-        have e2 : p + ([Instr.forktrybegin (p + 1 + cb.length + 2)] ++ cb ++ [Instr.forktryend, .jump (p + 1 + cb.length + 2 + ch.length)]).length = p + 1 + cb.length + 2 := by
-          simp; omega
-        rw [e2] at this; exact this
-      have hlen : ([Instr.forktrybegin (p + 1 + cb.length + 2)] ++ cb ++ [Instr.forktryend, .jump (p + 1 + cb.length + 2 + ch.length)] ++ ch).length = 1 + cb.length + 2 + ch.length := by
-        simp; omega
-      rw [hlen] at hoff ⊢
-      have hexit : p + (1 + cb.length + 2 + ch.length) = p + 1 + cb.length + 2 + ch.length := by omega
-      rw [hexit]
-      simp only [eval] at hnd ⊢
-      have hndb : ND (eval defs n g ρ b v).stop := by
-        generalize eval defs n g ρ b v = rb at hnd
-        rcases rb with ⟨ob, sb⟩
-        cases sb <;> simp_all [ND]
-      have yb := ihn b g e (p+1) (by omega) (hcb ▸ hsb) hcl.1 ρ v S (⟨p, .v v :: S, fr, o⟩ :: F) R fr o cp P htop hge
-        (fun hh => hpar (Or.inl hh)) (fun a h => by have := hP a h; omega) henv (by rw [hcb]; omega) hndb
-      rw [hcb] at yb
-      have start : Steps code (.run p (.v v :: S) F false none R fr o cp)
-          (.run (p+1) (.v v :: S) (⟨p, .v v :: S, fr, o⟩ :: F) false none R fr o cp) := Steps.one (by simp [step, h0])
-      refine Yields.steps_left start EqOff.refl ?_
-      have hOb : ∀ a, Own (base fr) e (p+1) cb.length a → Own (base fr) e p (1 + cb.length + 2 + ch.length) a := by
-        intro a h; obtain ⟨j, h1, h2, h3⟩ := h; exact ⟨j, by omega, by omega, h3⟩
-      have hOh : ∀ a, Own (base fr) e (p + 1 + cb.length + 2) ch.length a →
-          Own (base fr) e p (1 + cb.length + 2 + ch.length) a ∨ (o ≤ a ∧ a < o) := by
-        intro a h; obtain ⟨j, h1, h2, h3⟩ := h; exact Or.inl ⟨j, by omega, by omega, h3⟩
-      have hPd : ∀ a, P a → ¬ Wr (Own (base fr) e (p+1) cb.length) o a := by
-        intro a h hw
-        have := hP a h
-        rcases hw with hw | hw
-        · obtain ⟨j, j1, j2, j3⟩ := hw; omega
-        · omega
-      generalize hrb : eval defs n g ρ b v = rb at hnd yb ⊢
-      rcases rb with ⟨ob, sb⟩
-      cases sb with
-      | diverge => simp [ND] at hnd
-      | done =>
-        simp only [Stop.toErr] at yb ⊢
-        have := try_body_aux yb (O := Own (base fr) e p (1 + cb.length + 2 + ch.length)) (K := P) (out2 := []) (e := none)
-          (Rref := R) rfl h0 t0 t1 hOb (fun _ h => Or.inr h) hPd EqOn.refl
-          (fun R' _ => .done (e := none)
-            (.head (c' := .run p (.v v :: S) F true none R' fr o 0) (by simp [step]) (Steps.one (by simp [step, h0])))
-            EqOff.refl)
-        simpa using this
-      | err ee =>
-        simp only [Stop.toErr] at yb hnd ⊢
-        have yh := fun R' (hR' : EqOn P R R') => ihn h g e (p + 1 + cb.length + 2) (by omega) (hch ▸ hsh) hcl.2 ρ ee.toV S F R' fr o 0 P htop hge
-          (fun hh => hpar (Or.inr hh)) (fun a h => by have := hP a h; omega) (henv.congr hR') (by rw [hch]; omega) hnd
-        rw [hch] at yh
-        exact try_body_aux yb (O := Own (base fr) e p (1 + cb.length + 2 + ch.length)) (K := P)
-          (Rref := R) rfl h0 t0 t1 hOb (fun _ h => Or.inr h) hPd EqOn.refl
-          (fun R' hR' => Yields.steps_left
-            (c' := .run (p + 1 + cb.length + 2) (.v ee.toV :: S) F false none R' fr o 0)
-            (.head (c' := .run p (.v v :: S) F true (some (.plain ee)) R' fr o 0) (by simp [step])
-              (Steps.one (by simp [step, h0])))
-            EqOff.refl ((yh R' hR').mono hOh (fun a h => Or.inr (Or.inl h)) (Nat.le_refl _)))
+        (.run p (.v v :: S) F false none R fr o cp) (eval defs n g ρ q v).outs (eval defs n g ρ q v).stop.toErr
+
+/-- … for every query: the induction hypothesis on the fuel -/
+def CY (code : Code) (defs : Name → Q) (entry : Name → Nat) (nf n : Nat) : Prop :=
+  ∀ q, CYq code defs entry nf n q
+
+theorem cy_id {code defs entry nf n} (hfun : FuncsOK code defs entry nf) (ihn : CY code defs entry nf n)  :
+    CYq code defs entry nf (n+1) .id := by
+  intro g e p _ _ _ ρ v S F R fr o cp P _ _ _ _ _ _ _
+  simp only [compile, eval, List.length_nil, Nat.add_zero, Stop.toErr]
+  exact .out (F' := []) ForksOK.nil (.refl _) (Nat.le_refl _) EqOff.refl (fun _ => ⟨rfl, rfl⟩)
+    (fun R2 _ => .done (.refl _) EqOff.refl)
+
+theorem cy_const {code defs entry nf n} (hfun : FuncsOK code defs entry nf) (ihn : CY code defs entry nf n) (c : V) :
+    CYq code defs entry nf (n+1) (.const c) := by
+  intro g e p _ hseg _ ρ v S F R fr o cp P _ _ _ _ _ _ _
+  simp only [compile, eval, List.length_singleton, Stop.toErr]
+  have h0 := Seg.head hseg
+  exact .out (F' := []) (R1 := R) (o1 := o) (cp := cp) ForksOK.nil (Steps.one (by simp [step, h0]))
+    (Nat.le_refl _) EqOff.refl (fun _ => ⟨rfl, rfl⟩) (fun R2 _ => .done (.refl _) EqOff.refl)
+
+theorem cy_empty {code defs entry nf n} (hfun : FuncsOK code defs entry nf) (ihn : CY code defs entry nf n)  :
+    CYq code defs entry nf (n+1) .empty := by
+  intro g e p _ hseg _ ρ v S F R fr o cp P _ _ _ _ _ _ _
+  simp only [compile, eval, Stop.toErr]
+  have h0 := Seg.head hseg
+  exact .done (Steps.one (by simp [step, h0])) EqOff.refl
+
+theorem cy_iter {code defs entry nf n} (hfun : FuncsOK code defs entry nf) (ihn : CY code defs entry nf n)  :
+    CYq code defs entry nf (n+1) .iter := by
+  intro g e p _ hseg _ ρ v S F R fr o cp P _ _ _ _ _ _ _
+  have h0 : code[p]? = some .iter := Seg.head hseg
+  simp only [compile, List.length_singleton]
+  cases hit : iterItems v with
+  | none =>
+    simp only [eval, hit, Stop.toErr]
+    exact .done (Steps.one (by simp [step, h0, hit])) EqOff.refl
+  | some xs =>
+    simp only [eval, hit, Stop.toErr]
+    have key : ∀ (ys : List V) (c : Cfg),
+        (∃ R cp, (∃ x, iterItems x = some ys ∧ c = .run p (.v x :: S) F false none R fr o cp) ∨
+         (ys ≠ [] ∧ c = .run p (.rest ys :: S) F true none R fr o cp)) →
+        Yields code (Own (base fr) e p 1) P o fr F (p+1) S c ys none := by
+      intro ys
+      induction ys with
+      | nil =>
+        intro c hc
+        obtain ⟨R, cp, ⟨x, hx, rfl⟩ | ⟨h, _⟩⟩ := hc
+        · exact .done (Steps.one (by simp [step, h0, hx])) EqOff.refl
+        · exact absurd rfl h
+      | cons y ys ih =>
+        intro c hc
+        obtain ⟨R, cp, hc⟩ := hc
+        cases ys with
+        | nil =>
+          refine .out (F' := []) (R1 := R) (o1 := o) (cp := cp) ForksOK.nil ?_ (Nat.le_refl _) ?_
+            (fun _ => ⟨rfl, rfl⟩) (fun R2 _ => .done (.refl _) EqOff.refl)
+          · rcases hc with ⟨x, hx, rfl⟩ | ⟨_, rfl⟩
+            · exact Steps.one (by simp [step, h0, hx])
+            · exact Steps.one (by simp [step, h0])
+          · rcases hc with ⟨x, hx, rfl⟩ | ⟨_, rfl⟩ <;> exact EqOff.refl
+        | cons z zs =>
+          have hok : ForksOK code [⟨p, .rest (z :: zs) :: S, fr, o⟩] := .plain (Or.inr h0) .nil
+          refine .out (F' := [⟨p, .rest (z :: zs) :: S, fr, o⟩]) (R1 := R) (o1 := o) (cp := cp) hok ?_
+            (Nat.le_refl _) ?_ (fun h => by simp at h) ?_
+          · rcases hc with ⟨x, hx, rfl⟩ | ⟨_, rfl⟩
+            · exact Steps.one (by simp [step, h0, hx])
+            · exact Steps.one (by simp [step, h0])
+          · rcases hc with ⟨x, hx, rfl⟩ | ⟨_, rfl⟩ <;> exact EqOff.refl
+          · intro R2 _
+            refine Yields.steps_left
+              (Steps.one (b := .run p (.rest (z :: zs) :: S) F true none R2 fr o 0) (by simp [step])) EqOff.refl ?_
+            exact ih _ ⟨R2, 0, Or.inr ⟨by simp, rfl⟩⟩
+    exact key xs _ ⟨R, cp, Or.inl ⟨v, hit, rfl⟩⟩
+
+theorem cy_pipe {code defs entry nf n} (hfun : FuncsOK code defs entry nf) (ihn : CY code defs entry nf n) (a : Q) (b : Q) :
+    CYq code defs entry nf (n+1) (.pipe a b) := by
+  intro g e p hep hseg hcl ρ v S F R fr o cp P htop hge hpar hP henv hoff hnd
+  simp only [compile] at hseg hoff ⊢
+  simp only [Q.Closed] at hcl
+  simp only [Q.HasParam] at hpar
+  have hsa := Seg.append_left hseg
+  have hsb := Seg.append_right hseg
+  have hnda : ND (eval defs n g ρ a v).stop := eval_pipe_nd_left hnd
+  rw [eval_pipe_of_nd hnda] at hnd ⊢
+  simp only [List.length_append] at hoff ⊢
+  have ya := ihn a g e p hep hsa hcl.1 ρ v S F R fr o cp P htop hge (fun h => hpar (Or.inl h)) hP henv (by omega) hnda
+  have := Yields.bind (f := eval defs n g ρ b) (R0 := R)
+    (O := Own (base fr) e p ((compile entry g e p a).length + (compile entry g e (p + (compile entry g e p a).length) b).length))
+    (p' := p + (compile entry g e p a).length + (compile entry g e (p + (compile entry g e p a).length) b).length)
+    (by intro i h; obtain ⟨j, h1, h2, h3⟩ := h; exact ⟨j, by omega, by omega, h3⟩)
+    (by intro i h; obtain ⟨j, h1, h2, h3⟩ := h; exact ⟨j, by omega, by omega, h3⟩)
+    (by intro i h h'; obtain ⟨j, h1, h2, h3⟩ := h; obtain ⟨k, k1, k2, k3⟩ := h'; omega)
+    (by intro i h; obtain ⟨j, h1, h2, h3⟩ := h; omega)
+    (by intro i h; have := hP i h; refine ⟨by omega, ?_⟩; intro h'; obtain ⟨j, h1, h2, h3⟩ := h'; omega)
+    ya
+    (fun x G R' o1 cp ho1 hR' hx => ihn b g e _ (by omega) hsb hcl.2 ρ x S G R' fr o1 cp P htop hge
+      (fun h => hpar (Or.inr h)) (fun a h => by have := hP a h; omega) (henv.congr hR') (by omega) hx)
+    (eval defs n g ρ a v).stop rfl EqOn.refl hnd
+  simpa [Nat.add_assoc] using this
+
+theorem cy_comma {code defs entry nf n} (hfun : FuncsOK code defs entry nf) (ihn : CY code defs entry nf n) (a : Q) (b : Q) :
+    CYq code defs entry nf (n+1) (.comma a b) := by
+  intro g e p hep hseg hcl ρ v S F R fr o cp P htop hge hpar hP henv hoff hnd
+  simp only [compile] at hseg hoff ⊢
+  simp only [Q.Closed] at hcl
+  simp only [Q.HasParam] at hpar
+  generalize hca : compile entry g e (p+1) a = ca at hseg hoff ⊢
+  generalize hpb : p + 1 + ca.length + 1 = pb at hseg hoff ⊢
+  generalize hcb : compile entry g e pb b = cb at hseg hoff ⊢
+  have hfork : code[p]? = some (.fork pb) := by
+    have := hseg 0 (by simp); simpa using this
+  have hsa : Seg code (p+1) ca := by
+    have h1 := Seg.append_left (Seg.append_left hseg)
+    have := Seg.append_right (a := [Instr.fork pb]) (b := ca) h1
+    simpa using this
+  have hjump : code[p + 1 + ca.length]? = some (.jump (pb + cb.length)) := by
+    have h1 := Seg.append_left hseg
+    have := Seg.append_right (a := [Instr.fork pb] ++ ca) (b := [Instr.jump (pb + cb.length)]) h1
+    have := Seg.head this
+    have e : p + 1 + ca.length = p + ([Instr.fork pb] ++ ca).length := by simp; omega
+    rw [e]; exact this
+  have hsb : Seg code pb cb := by
+    have := Seg.append_right (a := [Instr.fork pb] ++ ca ++ [Instr.jump (pb + cb.length)]) (b := cb) hseg
+    simpa [← hpb, Nat.add_assoc, Nat.add_comm, Nat.add_left_comm] using this
+  have hlen : ([Instr.fork pb] ++ ca ++ [Instr.jump (pb + cb.length)] ++ cb).length = 1 + ca.length + 1 + cb.length := by
+    simp; omega
+  rw [hlen] at hoff ⊢
+  have hexit : p + (1 + ca.length + 1 + cb.length) = pb + cb.length := by omega
+  rw [hexit]
+  let fk : Fork := ⟨p, .v v :: S, fr, o⟩
+  have hfk : ForksOK code [fk] := .plain (Or.inl ⟨pb, hfork⟩) .nil
+  simp only [eval] at hnd ⊢
+  have hnda : ND (eval defs n g ρ a v).stop := by
+    generalize eval defs n g ρ a v = ra at hnd
+    rcases ra with ⟨oa, sa⟩
+    cases sa <;> simp_all [ND]
+  have ya := ihn a g e (p+1) (by omega) (hca ▸ hsa) hcl.1 ρ v S (fk :: F) R fr o cp P htop hge
+    (fun h => hpar (Or.inl h)) (fun a h => by have := hP a h; omega) henv (by rw [hca]; omega) hnda
+  rw [hca] at ya
+  have ya' : Yields code (Own (base fr) e (p+1) ca.length) P o fr ([fk] ++ F) (pb + cb.length) S
+      (.run (p+1) (.v v :: S) (fk :: F) false none R fr o cp) (eval defs n g ρ a v).outs (eval defs n g ρ a v).stop.toErr :=
+    Yields.exit_steps (fun w G R o1 cp => ⟨cp, Steps.one (by simp [step, hjump])⟩) ya
+  have start : Steps code (.run p (.v v :: S) F false none R fr o cp) (.run (p+1) (.v v :: S) (fk :: F) false none R fr o cp) :=
+    Steps.one (by simp [step, hfork, fk])
+  refine Yields.steps_left start EqOff.refl ?_
+  have hOa : ∀ i, Own (base fr) e (p+1) ca.length i → Own (base fr) e p (1 + ca.length + 1 + cb.length) i ∨ (o ≤ i ∧ i < o) := by
+    intro i h; obtain ⟨j, h1, h2, h3⟩ := h; exact Or.inl ⟨j, by omega, by omega, h3⟩
+  have hOb : ∀ i, Own (base fr) e pb cb.length i → Own (base fr) e p (1 + ca.length + 1 + cb.length) i ∨ (o ≤ i ∧ i < o) := by
+    intro i h; obtain ⟨j, h1, h2, h3⟩ := h; exact Or.inl ⟨j, by omega, by omega, h3⟩
+  have hPP : ∀ a, P a → Own (base fr) e p (1 + ca.length + 1 + cb.length) a ∨ P a ∨ (o ≤ a ∧ a < o) :=
+    fun a h => Or.inr (Or.inl h)
+  generalize hra : eval defs n g ρ a v = ra at hnd ya' ⊢
+  rcases ra with ⟨oa, sa⟩
+  cases sa with
+  | diverge => simp [ND] at hnd
+  | err ee =>
+    simp only [Stop.toErr] at ya' ⊢
+    exact Yields.rebase_err ya' hfk hOa hPP (Nat.le_refl _)
+  | done =>
+    simp only [Stop.toErr] at ya' hnd ⊢
+    have yb := fun R' (hR' : EqOn P R R') => ihn b g e pb (by omega) (hcb ▸ hsb) hcl.2 ρ v S F R' fr o 0 P htop hge
+      (fun h => hpar (Or.inr h)) (fun a h => by have := hP a h; omega) (henv.congr hR') (by rw [hcb]; omega) hnd
+    rw [hcb] at yb
+    refine Yields.rebase (K := P) ya' hfk hOa hPP (Nat.le_refl _) hPP ?_ (fun h => by simp at h) ?_
+    · intro a h hw
+      have := hP a h
+      rcases hw with hw | hw
+      · obtain ⟨j, j1, j2, j3⟩ := hw; omega
+      · omega
+    intro R' hR'
+    refine Yields.steps_left (c' := .run pb (.v v :: S) F false none R' fr o 0) ?_ EqOff.refl
+      ((yb R' (by simpa using hR')).mono hOb hPP (Nat.le_refl _))
+    refine .head (c' := .run p (.v v :: S) F true none R' fr o 0) (by simp [step, fk]) ?_
+    exact Steps.one (by simp [step, hfork])
+
+theorem cy_arr {code defs entry nf n} (hfun : FuncsOK code defs entry nf) (ihn : CY code defs entry nf n) (q : Q) :
+    CYq code defs entry nf (n+1) (.arr q) := by
+  intro g e p hep hseg hcl ρ v S F R fr o cp P htop hge hpar hP henv hoff hnd
+  simp only [compile] at hseg hoff ⊢
+  simp only [Q.Closed] at hcl
+  simp only [Q.HasParam] at hpar
+  obtain ⟨ft, hres, hbase, _, _⟩ := htop.resolve
+  generalize hcq : compile entry g e (p+3) q = cq at hseg hoff ⊢
+  have h0 : code[p]? = some (.push (.arr [])) := by have := hseg 0 (by simp); simpa using this
+  have h1 : code[p+1]? = some (.store e (p - e)) := by have := hseg 1 (by simp); simpa using this
+  have h2 : code[p+2]? = some (.fork (p + 3 + cq.length + 2)) := by have := hseg 2 (by simp); simpa using this
+  have hsq : Seg code (p+3) cq := by
+    have := Seg.append_right (a := [Instr.push (.arr []), .store e (p - e), .fork (p + 3 + cq.length + 2)]) (b := cq) (Seg.append_left hseg)
+    simpa using this
+  have htail := Seg.append_right (a := [Instr.push (.arr []), .store e (p - e), .fork (p + 3 + cq.length + 2)] ++ cq) hseg
+  have hpe : p + ([Instr.push (.arr []), .store e (p - e), .fork (p + 3 + cq.length + 2)] ++ cq).length = p + 3 + cq.length := by
+    simp; omega
+  rw [hpe] at htail
+  have t0 : code[p + 3 + cq.length]? = some (.append e (p - e)) := by have := htail 0 (by simp); simpa using this
+  have t1 : code[p + 3 + cq.length + 1]? = some .backtrack := by have := htail 1 (by simp); simpa using this
+  have t2 : code[p + 3 + cq.length + 2]? = some .pop := by have := htail 2 (by simp); simpa using this
+  have t3 : code[p + 3 + cq.length + 3]? = some (.load e (p - e)) := by have := htail 3 (by simp); simpa using this
+  have hlen : ([Instr.push (.arr []), .store e (p - e), .fork (p + 3 + cq.length + 2)] ++ cq ++ [Instr.append e (p - e), .backtrack, .pop, .load e (p - e)]).length = 3 + cq.length + 4 := by
+    simp; omega
+  rw [hlen] at hoff ⊢
+  let fk : Fork := ⟨p+2, .v v :: S, fr, o⟩
+  let r := ft.base + (p - e)
+  let R0 := R.set r (.v (.arr []))
+  have hrP : ¬ P r := by intro h; have := hP _ h; simp only [r] at this; omega
+  have hRR0 : EqOn P R R0 := by
+    intro a ha; simp only [R0, Regs.set]; split
+    · rename_i h; subst h; exact absurd ha hrP
+    · rfl
+  have start : Steps code (.run p (.v v :: S) F false none R fr o cp) (.run (p+3) (.v v :: S) (fk :: F) false none R0 fr o cp) := by
+    refine .head (c' := .run (p+1) (.v (.arr []) :: .v v :: S) F false none R fr o cp) (by simp [step, h0]) ?_
+    refine .head (c' := .run (p+2) (.v v :: S) F false none R0 fr o cp) (by simp [step, h1, hres, R0, r]) ?_
+    exact Steps.one (by simp [step, h2, fk])
+  simp only [eval] at hnd ⊢
+  have hndq : ND (eval defs n g ρ q v).stop := by
+    generalize eval defs n g ρ q v = rq at hnd
+    rcases rq with ⟨oq, sq⟩
+    cases sq <;> simp_all [ND]
+  have yq := ihn q g e (p+3) (by omega) (hcq ▸ hsq) hcl ρ v S (fk :: F) R0 fr o cp P htop hge hpar
+    (fun a h => by have := hP a h; omega) (henv.congr hRR0) (by rw [hcq]; omega) hndq
+  rw [hcq] at yq
+  have hnot : ¬ Own (base fr) e (p+3) cq.length r := by
+    intro h; obtain ⟨j, j1, j2, j3⟩ := h; simp only [r] at j3; omega
+  have hrlt : r < o := by simp only [r]; omega
+  obtain ⟨R', hs, hacc, hfr⟩ := collect hres hnot hrP hrlt t0 t1 yq [] (by simp [R0, Regs.set, r])
+  have hfr' : EqOff (Wr (Own (base fr) e p (3 + cq.length + 4)) o) R R' := by
+    intro i hi
+    have hne : i ≠ r := by
+      intro h; apply hi; left; exact ⟨p, by omega, by omega, by simp [h, r, hbase]⟩
+    have a : ¬ (Wr (Own (base fr) e (p+3) cq.length) o i ∨ i = r) := by
+      intro h; rcases h with (h | h) | h
+      · apply hi; left; obtain ⟨j, j1, j2, j3⟩ := h; exact ⟨j, by omega, by omega, j3⟩
+      · exact hi (Or.inr h)
+      · exact hne h
+    rw [← hfr i a]
+    simp [R0, Regs.set, hne]
+  generalize hrq : eval defs n g ρ q v = rq at hnd hs hacc ⊢
+  rcases rq with ⟨oq, sq⟩
+  cases sq with
+  | diverge => simp [ND] at hnd
+  | err ee =>
+    simp only [Stop.toErr] at hs ⊢
+    refine .done (start.trans (hs.trans ?_)) hfr'
+    refine .head (c' := .run (p+2) (.v v :: S) F true (some (.plain ee)) R' fr o 0) (by simp [step, fk]) ?_
+    exact Steps.one (by simp [step, h2])
+  | done =>
+    simp only [Stop.toErr] at hs hacc ⊢
+    refine .out (F' := []) (R1 := R') (o1 := o) (cp := 0) ForksOK.nil ?_ (Nat.le_refl _) hfr' (fun _ => ⟨rfl, rfl⟩)
+      (fun R2 _ => .done (.refl _) EqOff.refl)
+    refine start.trans (hs.trans ?_)
+    refine .head (c' := .run (p+2) (.v v :: S) F true none R' fr o 0) (by simp [step, fk]) ?_
+    refine .head (c' := .run (p + 3 + cq.length + 2) (.v v :: S) F false none R' fr o 0) (by simp [step, h2]) ?_
+    refine .head (c' := .run (p + 3 + cq.length + 3) S F false none R' fr o 0) (by simp [step, t2]) ?_
+    have : p + (3 + cq.length + 4) = p + 3 + cq.length + 3 + 1 := by omega
+    rw [this]
+    refine Steps.one ?_
+    have hacc' : R' (ft.base + (p - e)) = .v (.arr oq) := by simpa using hacc
+    simp [step, t3, hres, hacc']
+
+theorem cy_error {code defs entry nf n} (hfun : FuncsOK code defs entry nf) (ihn : CY code defs entry nf n)  :
+    CYq code defs entry nf (n+1) .error := by
+  intro g e p _ hseg _ ρ v S F R fr o cp P _ _ _ _ _ _ _
+  simp only [compile, eval, Stop.toErr]
+  have h0 := Seg.head hseg
+  exact .done (e := some (.user v)) (Steps.one (by simp [step, h0])) EqOff.refl
+
+theorem cy_index {code defs entry nf n} (hfun : FuncsOK code defs entry nf) (ihn : CY code defs entry nf n) (k : V) :
+    CYq code defs entry nf (n+1) (.index k) := by
+  intro g e p _ hseg _ ρ v S F R fr o cp P _ _ _ _ _ _ _
+  have h0 : code[p]? = some (.index k) := Seg.head hseg
+  simp only [compile, List.length_singleton]
+  cases hix : IterMsg.index v k with
+  | none =>
+    simp only [eval, hix, Stop.toErr]
+    exact .done (e := some (.idx v k)) (Steps.one (by simp [step, h0, hix])) EqOff.refl
+  | some w =>
+    simp only [eval, hix, Stop.toErr]
+    exact .out (F' := []) (R1 := R) (o1 := o) (cp := cp) ForksOK.nil (Steps.one (by simp [step, h0, hix]))
+      (Nat.le_refl _) EqOff.refl (fun _ => ⟨rfl, rfl⟩) (fun R2 _ => .done (.refl _) EqOff.refl)
 
 end Gojq.MiniVM
